@@ -1,8 +1,8 @@
-(* C01 — namespace and content operations agree with an abstract tree model.  Statements are printed by Check below and compared with C01.expected.  PARTIAL: proved are the directory layer (lookup / insert / remove / listing on the pointer table refine a search tree over cmp_names, for any tree shape), the specification's own invariants, and the refinement of the NAMESPACE: under the representation relation TreeRep (table represents abstract tree; stream bytes abstracted by a content relation with a frame hypothesis) every query returns the specification's result and every successful namespace mutation yields a table representing the specification's new tree, with agreeing refusal kinds.  Also proved (proofs/HistoryRefine.v): the lift to WHOLE HISTORIES from a freshly created file of either version - for every list of the seven namespace mutations, nine queries, open_stream and stream creation at fresh paths, the model's results and the specification's are related call by call (equal refusal kinds, entries equal up to the root's length field) and the final table represents the final tree, up to the first late failure - and (proofs/Progress.v) late failures do not occur: whenever the specification accepts a covered call on a state reached by a namespace history (up to 6000 calls, i.e. below 109 FAT sectors) the model returns Ok, so the refinement over histories holds with no hypothesis about the model's results.  NOT proved: truncating create_stream, the *_all operations, and the content frame for stream bytes through chains and migrations — those are checked instance by instance: on every step of every generated history the abstraction of the model state equals the specification tree and the specification's result equals the implementation's. *)
+(* C01 — namespace and content operations agree with an abstract tree model.  Statements are printed by Check below and compared with C01.expected.  PARTIAL: proved are the directory layer (lookup / insert / remove / listing on the pointer table refine a search tree over cmp_names, for any tree shape), the specification's own invariants, and the refinement of the NAMESPACE: under the representation relation TreeRep (table represents abstract tree; stream bytes abstracted by a content relation with a frame hypothesis) every query returns the specification's result and every successful namespace mutation yields a table representing the specification's new tree, with agreeing refusal kinds.  Also proved (proofs/HistoryRefine.v): the lift to WHOLE HISTORIES from a freshly created file of either version - for every list of the seven namespace mutations, nine queries, open_stream and stream creation at fresh paths, the model's results and the specification's are related call by call (equal refusal kinds, entries equal up to the root's length field) and the final table represents the final tree, up to the first late failure - and (proofs/Progress.v) late failures do not occur: whenever the specification accepts a covered call on a state reached by a namespace history (up to 6000 calls, i.e. below 109 FAT sectors) the model returns Ok, so the refinement over histories holds with no hypothesis about the model's results.  Also proved (proofs/DataFrame.v): the CONTENT half over data histories - every covered step (all handle operations in all covered store cases incl. allocation and migrations, removal with data, reopen) keeps TreeRep with the real stream contents and updates exactly the addressed leaf.  NOT proved: truncating create_stream, the *_all operations, creations inside data histories — those are checked instance by instance: on every step of every generated history the abstraction of the model state equals the specification tree and the specification's result equals the implementation's. *)
 From Cfb.model Require Import Base Names DirEnt State Alloc Dir Mini Store Handle Open Cfb.
 From Cfb.gen Require Import Consts.
 From Cfb.spec Require Import Tree.
-From Cfb.proofs Require Import NamesProofs DirProofs TreeProofs QueryRefine MutRefine ReadonlyTotal HistoryRefine PersistProofs Progress.
+From Cfb.proofs Require Import NamesProofs DirProofs TreeProofs QueryRefine MutRefine ReadonlyTotal HistoryRefine PersistProofs Progress DataFrame.
 Set Printing Width 110.
 
 (* table lookup with the model's own fuel = search-tree lookup, for ANY tree shape (balance and colour irrelevant) *)
@@ -124,6 +124,30 @@ Theorem C01_history_example : ltac:(let t := type of Example.ex_history in exact
 Proof. exact Example.ex_history. Qed.
 Check C01_history_example.
 Print Assumptions C01_history_example.
+
+(* DataFrame: CONTENT half - one covered step on a file with data (any of the 10 handle operations in any covered store case, removal with data, reopen): the table represents the specification's tree with the addressed leaf replaced by what the model predicts *)
+Theorem C01_content_refinement_one_step : ltac:(let t := type of step_refines_full in exact t).
+Proof. exact step_refines_full. Qed.
+Check C01_content_refinement_one_step.
+Print Assumptions C01_content_refinement_one_step.
+
+(* for every history of hist_ok2 on live handles: there is a tree reached by the per-step leaf updates that the final table represents, with the real stream contents *)
+Theorem C01_content_refinement_over_histories : ltac:(let t := type of data_history_refines in exact t).
+Proof. exact data_history_refines. Qed.
+Check C01_content_refinement_over_histories.
+Print Assumptions C01_content_refinement_over_histories.
+
+(* after set_len the leaf is exactly resized (buffered view) n *)
+Theorem C01_set_len_leaf_is_determined : ltac:(let t := type of setlen_tree_full in exact t).
+Proof. exact setlen_tree_full. Qed.
+Check C01_set_len_leaf_is_determined.
+Print Assumptions C01_set_len_leaf_is_determined.
+
+(* after flush the leaf is exactly the handle's buffered view *)
+Theorem C01_flush_leaf_is_determined : ltac:(let t := type of flush_tree_full in exact t).
+Proof. exact flush_tree_full. Qed.
+Check C01_flush_leaf_is_determined.
+Print Assumptions C01_flush_leaf_is_determined.
 
 (* PROGRESS: on a state reached by a namespace history, whenever the specification accepts a covered call the model returns Ok (no failure in slot allocation, directory growth, sector allocation or write-through) *)
 Theorem C01_accepted_calls_do_not_fail_late : ltac:(let t := type of step_progress in exact t).
